@@ -200,6 +200,26 @@ def run(res, tier, seed, shard, nshards):
                     # well-formed control: the same bytes with the sequence kept together
                     check_validator(res, W, pre + head + tail + gap, "block-structure")
                     res.count("block_structure_strings", 2)
+    # 3a'. a well-formed multi-byte character straddling a block boundary at every possible split (k of its bytes before the
+    #      boundary), with and without further text behind it, and the same with one byte damaged
+    sblocks = [64, 4096, 65536] if tier == "quick" else [16, 64, 256, 1024, 4096, 16384, 65536, 131072, 1 << 20]
+    chars = [b"\xc3\xa9", b"\xe2\x82\xac", b"\xf0\x9f\x98\x80", b"\xf4\x8f\xbf\xbf", b"\xef\xbb\xbf"]
+    si = 0
+    for B in sblocks:
+        for mult in (1, 2):
+            for ch in chars:
+                for k in range(0, len(ch) + 1):
+                    si += 1
+                    if si % nshards != shard:
+                        continue
+                    pre = b"a" * (B * mult - k)
+                    for post in (b"", b"z" * 5, ch + b"z" * (B // 2)):
+                        check_validator(res, W, pre + ch + post, "straddling-character")
+                    if 0 < k < len(ch):
+                        bad = bytearray(pre + ch + b"zz")
+                        bad[len(pre) + k] = 0x41  # the byte right after the boundary is no continuation byte
+                        check_validator(res, W, bytes(bad), "straddling-character")
+                    res.count("straddling_character_strings", 4)
     # 3b. very long payloads (a validator may switch strategy above some size): the last code point cut short, an ill-formed sequence
     # deep inside, and well-formed controls.  The reference for these is CPython's strict decoder (agrees with the DFA, see self-check).
     sizes = [(1 << 24) + 3] if tier == "quick" else [(1 << 20) + 1, (1 << 22) + 1, (1 << 24) + 1, (1 << 24) + 3, (1 << 25) + 5]
@@ -233,6 +253,8 @@ def run(res, tier, seed, shard, nshards):
     # 4. receive path -----------------------------------------------------------
     with H.ambient((shard, "C06"), res, dims=("multithread", "tls", "dispatcher", "high_fd")):
         recv_path(res, W, tier, rng, shard, nshards)
+    if shard == 1 % nshards:
+        H.in_sim(lambda: redirect_option_cases(res, W, rng), watchdog=120)
     # 5. through WebSocketApp ---------------------------------------------------
     app_path(res, W, tier, rng, shard, nshards)
 
@@ -308,6 +330,68 @@ def app_path(res, W, tier, rng, shard, nshards):
                 idx += 1
                 if idx % nshards == shard:
                     app_close_reason_case(res, W, appsim, data, cbs_kind, valid, cls)
+
+
+def redirect_option_cases(res, W, rng):
+    """The receive options given to create_connection() / connect() are those of the connection that is finally established, also when
+    it was reached through a redirect: with validation off ill-formed text passes through unchanged, with per-fragment delivery on the
+    fragments come one by one."""
+    bad = b"caf\xe9 \xff"
+    for nred in (0, 1, 2):
+        for via in ("create_connection", "connect"):
+            for opts in ({"skip_utf8_validation": True}, {"skip_utf8_validation": True, "fire_cont_frame": True}, {"fire_cont_frame": True}):
+                conns = []
+
+                def on_conn(conn, nred=nred):
+                    conns.append(conn)
+                    i = len(conns)
+                    if i <= nred:
+                        H.HandshakePeer(conn, response=lambda req, i=i: f"HTTP/1.1 302 Found\r\nLocation: ws://hop{i}.test/n{i}\r\n\r\n".encode())
+                    else:
+                        stream = R.encode(R.TEXT, bad[:3], fin=0) + R.encode(R.CONT, bad[3:]) + R.encode(R.CLOSE, b"\x03\xe8" + bad)
+                        H.HandshakePeer(conn, after=stream)
+                H.reset_process_state()
+                H.make_net(on_conn)
+                case = {"gen": "redirect-options", "redirects": nred, "via": via, "options": opts}
+                res.case(("redirect-options", nred, via, tuple(sorted(opts))), nontrivial=True)
+                res.count("redirect_option_cases")
+                try:
+                    if via == "create_connection":
+                        w = W.create_connection("ws://start.test/", timeout=2, **opts)
+                    else:
+                        w = W.WebSocket(**opts)
+                        w.settimeout(2)
+                        w.connect("ws://start.test/")
+                except Exception as e:  # noqa
+                    res.violation("recv-mismatch", f"{via} with {opts} through {nred} redirect(s): {type(e).__name__}: {e}", case, input_class="invalid", skip=True,
+                                  path="redirect", outcome=type(e).__name__)
+                    continue
+                got = []
+                try:
+                    for _ in range(3):
+                        op, fr = w.recv_data_frame(True)
+                        got.append((op, bytes(fr.data), fr.fin))
+                        if op == R.CLOSE:
+                            break
+                except Exception as e:  # noqa
+                    got.append(("exc", type(e).__name__, str(e)[:60]))
+                skip = bool(opts.get("skip_utf8_validation"))
+                pf = bool(opts.get("fire_cont_frame"))
+                if skip:
+                    exp = ([(R.TEXT, bad[:3], 0), (R.CONT, bad[3:], 1)] if pf else [(R.TEXT, bad, 1)]) + [(R.CLOSE, b"\x03\xe8" + bad, 1)]
+                    if got != exp:
+                        res.violation("recv-mismatch", f"{via} with {opts} through {nred} redirect(s): validation is off, yet got {got}, expected {exp}", case,
+                                      input_class="invalid", skip=True, path="redirect", outcome="options-lost")
+                else:
+                    # validation on, per-fragment delivery on: the fragments come one by one (the text itself is ill-formed: what happens to it is
+                    # the app path's question), and the close frame's reason is refused
+                    if not got or got[0][:2] != (R.TEXT, bad[:3]):
+                        res.violation("recv-mismatch", f"{via} with {opts} through {nred} redirect(s): per-fragment delivery is on, first result {got[:1]}", case,
+                                      input_class="invalid", skip=False, path="redirect", outcome="options-lost")
+                try:
+                    w.shutdown()
+                except Exception:  # noqa
+                    pass
 
 
 def app_close_reason_case(res, W, appsim, data, cbs_kind, valid, cls):
